@@ -11,7 +11,7 @@ class C05(common.SpecCheck):
     unit_fn = "units:c05_unit"
     QUICK = {"nseeds": 8, "specs": 100, "round": 100, "budget": 0}
     rule = ("class-K cascades of 2-4 Einsums (per-Einsum shape / occupancy partitioning, loop orders, rank orders, "
-            "optional spacetime) x hash-seed pool. History = which Einsums were translated earlier on the same "
+            "optional spacetime; a quarter start with an index-math Einsum whose successors partition, flatten or re-use its index variables) x hash-seed pool. History = which Einsums were translated earlier on the same "
             "Program/TransUtils/Tensor objects: EVERY subsequence of the cascade (<= 15) is compiled and the text of "
             "S+[E] must equal text(S) followed by the stand-alone text of E with temporaries shifted by the number "
             "text(S) uses (refinement against the memoryless-compiler model). The full program is executed and compared "
@@ -21,6 +21,10 @@ class C05(common.SpecCheck):
     assumptions = ["temporaries are numbered by one monotone counter (tmp<N>); renumbering = shifting by a constant"]
 
     def gen(self, rng, k):
+        if rng.random() < 0.25:
+            spec, meta = classes.gen_cascade_conv(rng)
+            meta["class"] = "K"
+            return spec, meta
         spec, meta = classes.gen_cascade(rng)
         if rng.random() < 0.3:
             for e in spec["exprs"]:
